@@ -8,6 +8,9 @@ use serde_json::{json, Value};
 
 fn corpus(seed: u64, n: u64, small: bool) -> Vec<(String, Tree)> {
     let mut games = zoo::all();
+    if small {
+        games.extend(zoo::exact_zeros());
+    }
     let mut rng = Rng::new(seed ^ 0xc0c0);
     for id in 0..n {
         let mut r = rng.fork();
